@@ -1,7 +1,7 @@
 """T00 -- engine self-test: tiny functions with contracts that must verify (ok_*) or be refuted (bad_*).
 Not a property of the repository; run by pyvc.selftest to validate the verifier itself."""
-from pyvc.api import Module, Int, Nat, Bool, Str, Opt, ListOf, FixedList, OneOf, Inst
-from contracts.common import implies, iff, forall_range, exists_range
+from pyvc.api import Module, Int, Nat, Bool, Str, Opt, ListOf, FixedList, OneOf, Inst, MapOf
+from contracts.common import implies, iff, forall_range, exists_range, prefix_fold
 
 M = Module('T00')
 P = 'contracts.T00_engine'
@@ -147,11 +147,88 @@ M.contract(P + ':ok_floor_div', params=dict(a=Int, b=Int),
                     'sign-of-remainder': lambda b, result: (0 <= result[1] < b) if b > 0 else (b < result[1] <= 0)},
            raises_only=())
 
+
+# ---- symbolic maps (dict view), frame/havoc of mutable arguments, ghost history function
+
+def ok_map_ops(d, k, v):
+    """dict operations on a map of unbounded contents"""
+    had = k in d
+    before = d.get(k, '')
+    d[k] = v
+    e = dict(d)
+    removed = e.pop(k)
+    if 'x' in e:
+        del e['x']
+    return had, before, removed, e
+
+
+M.contract(P + ':ok_map_ops', params=dict(d=MapOf(Str, Str), k=Str, v=Str), ghosts=dict(q=Str), modifies=('d',),
+           old=lambda d: dict(d),
+           ensures={'d updated at k only': lambda d, k, v, q, old:
+           d[k] == v and iff(q in d, q == k or q in old) and (q == k or q not in old or d[q] == old[q]),
+                    'results': lambda k, v, result, old:
+                    iff(result[0], k in old) and result[1] == (old[k] if k in old else '') and result[2] == v,
+                    'copy is independent': lambda d, k, q, result: k not in result[3] and k in d and 'x' not in result[3]
+                                                                   and iff(q in result[3], q in d and q != k and q != 'x')},
+           raises_only=())
+
+
+def ok_put_all(d, ks):
+    for k in ks:
+        _put(d, k)
+
+
+def _put(d, k):
+    d[k] = k + '!'
+
+
+def _put_step(d, k):
+    r = dict(d)
+    r[k] = k + '!'
+    return r
+
+
+M.contract(P + ':_put', params=dict(d=MapOf(Str, Str), k=Str), modifies=('d',), old=lambda d: dict(d),
+           ensures={'put': lambda d, k, old: d == _put_step(old, k)}, raises_only=())
+M.contract(P + ':ok_put_all', params=dict(d=MapOf(Str, Str), ks=ListOf(Str)), modifies=('d',), old=lambda d: dict(d),
+           ensures={'fold': lambda d, ks, old: d == prefix_fold(_put_step, old, ks, len(ks))}, raises_only=())
+M.loop(P + ':ok_put_all', 0, invariant=lambda _i, d, ks, old: d == prefix_fold(_put_step, old, ks, _i),
+       modifies=dict(k='local', d='in-place'))
+
 EXPECTED_REFUTED = {
     P + ':bad_first_line : ensures[prefix-without-newline]',
     P + ':bad_sum_to : loop#0 invariant[preserved]',
     P + ':bad_all_positive : loop#0 invariant[preserved]',
 }
+
+
+def ok_join_args(cmd, args):
+    """str.join over a concatenation with a sequence of symbolic length (shell command lines)"""
+    return ' '.join([cmd] + args)
+
+
+M.contract(P + ':ok_join_args', params=dict(cmd=Str, args=ListOf(Str)), returns=Str,
+           ensures={'no-args: the command itself': lambda cmd, args, result: implies(len(args) == 0, result == cmd),
+                    'one-arg: separated by one space': lambda cmd, args, result:
+                    (not len(args) == 1) or result == cmd + ' ' + args[0],
+                    'starts-with-the-command': lambda cmd, result: result.startswith(cmd),
+                    'same-expression-same-value': lambda cmd, args, result: result == ' '.join([cmd] + list(args))},
+           raises_only=())
+
+
+def ok_copy_append(xs, x):
+    """list(xs) is a new list: appending to it leaves xs alone (stdin parts + act stdin)"""
+    ys = list(xs)
+    before = tuple(ys)
+    ys.append(x)
+    return ys, before
+
+
+M.contract(P + ':ok_copy_append', params=dict(xs=ListOf(Int), x=Int), ghosts=dict(j=Int),
+           ensures={'appended-last': lambda xs, x, result: len(result[0]) == len(xs) + 1 and result[0][len(xs)] == x,
+                    'prefix-kept': lambda xs, result, j: (not (0 <= j < len(xs))) or result[0][j] == xs[j],
+                    'snapshot-unchanged': lambda xs, result: len(result[1]) == len(xs)},
+           raises_only=())
 
 
 def ok_numbered(lines):
@@ -220,7 +297,7 @@ def ok_out_param(xs, acc):
 
 
 M.contract(P + ':ok_out_param', params=dict(xs=ListOf(Int), acc=MListOf(FixedList(Int, Int, as_tuple=True))),
-           old=lambda acc: len(acc), returns=Int,
+           old=lambda acc: len(acc), returns=Int, modifies=('acc',),
            ensures={'appended': lambda xs, acc, old, result: result == old + len(xs) and len(acc) == result
                     and forall_range(0, len(xs), lambda k: acc[old + k][1] == xs[k] + 1)},
            raises_only=())
@@ -228,3 +305,141 @@ M.loop(P + ':ok_out_param', 0,
        invariant=lambda _i, xs, acc, old: len(acc) == old + _i and forall_range(
            0, _i, lambda k: acc[old + k][1] == xs[k] + 1),
        modifies=dict(acc=MListOf(FixedList(Int, Int, as_tuple=True)), x='local'))
+
+
+def ok_int_round_trip(n):
+    """exit codes are stored as text and read back (also negative ones: killed by a signal)"""
+    return int(str(n))
+
+
+M.contract(P + ':ok_int_round_trip', params=dict(n=Int), returns=Int,
+           ensures={'int(str(n)) == n': lambda n, result: result == n}, raises_only=())
+
+
+def ok_build_argv(interpreter_args, source_file, args):
+    """argv built with `+=` / append on a fresh list (file interpreter actor)"""
+    arguments = []
+    arguments += interpreter_args
+    arguments.append(source_file)
+    arguments += args
+    return arguments
+
+
+M.contract(P + ':ok_build_argv', params=dict(interpreter_args=ListOf(Str), source_file=Str, args=ListOf(Str)),
+           ghosts=dict(j=Int),
+           ensures={'length': lambda interpreter_args, args, result: len(result) == len(interpreter_args) + 1 + len(args),
+                    'interpreter-args-first': lambda interpreter_args, result, j:
+                    (not (0 <= j < len(interpreter_args))) or result[j] == interpreter_args[j],
+                    'then-the-source-file': lambda interpreter_args, source_file, result:
+                    result[len(interpreter_args)] == source_file,
+                    'then-the-arguments': lambda interpreter_args, args, result, j:
+                    (not (0 <= j < len(args))) or result[len(interpreter_args) + 1 + j] == args[j],
+                    'inputs-unchanged': lambda interpreter_args, args, old: (len(interpreter_args), len(args)) == old},
+           old=lambda interpreter_args, args: (len(interpreter_args), len(args)),
+           raises_only=())
+
+
+# ---- mutable lists of records with optional fields (MListOf(Inst(...))) and of elements of a sequence of
+# interface objects (MListOf(RefTo(...)))
+
+class _Rec:
+    def __init__(self, a, b):
+        self.a = a
+        self.b = b
+
+
+def ok_collect_records(xs):
+    out = []
+    for x in xs:
+        out.append(_Rec(x, None if x < 0 else x + 1))
+    return out
+
+
+from pyvc.api import Inst, Opt, RefTo, Interface, Iface  # noqa: E402
+
+_REC = Inst(_Rec, a=Int, b=Opt(Int))
+
+
+def _rec_ok(r, x):
+    return r.a == x and (r.b is None) == (x < 0)
+
+
+M.contract(P + ':ok_collect_records', params=dict(xs=ListOf(Int)), returns=MListOf(_REC),
+           ensures={'one-record-per-item': lambda xs, result: len(result) == len(xs) and forall_range(
+               0, len(xs), lambda k: _rec_ok(result[k], xs[k]))},
+           raises_only=())
+M.loop(P + ':ok_collect_records', 0,
+       invariant=lambda _i, xs, out: len(out) == _i and forall_range(0, _i, lambda k: _rec_ok(out[k], xs[k])),
+       modifies=dict(out=MListOf(_REC), x='local'))
+
+
+def bad_collect_records(xs):
+    out = []
+    for x in xs:
+        out.append(_Rec(x, None if x <= 0 else x + 1))
+    return out
+
+
+M.contract(P + ':bad_collect_records', params=dict(xs=ListOf(Int)), returns=MListOf(_REC),
+           ensures={'one-record-per-item': lambda xs, result: len(result) == len(xs) and forall_range(
+               0, len(xs), lambda k: _rec_ok(result[k], xs[k]))},
+           raises_only=())
+M.loop(P + ':bad_collect_records', 0,
+       invariant=lambda _i, xs, out: len(out) == _i and forall_range(0, _i, lambda k: _rec_ok(out[k], xs[k])),
+       modifies=dict(out=MListOf(_REC), x='local'))
+
+EXPECTED_REFUTED.add(P + ':bad_collect_records : loop#0 invariant[preserved]')
+
+
+class _ItemI(Interface):
+    attrs = {'weight': Int}
+
+
+def ok_heavy_items(items):
+    out = []
+    for it in items:
+        if it.weight > 10:
+            out.append(it)
+    return out
+
+
+_ITEM_REF = RefTo(_ItemI, 'items[]')
+
+M.contract(P + ':ok_heavy_items', params=dict(items=ListOf(Iface(_ItemI))), returns=MListOf(_ITEM_REF),
+           ensures={'only-heavy': lambda result: forall_range(0, len(result), lambda k: result[k].weight > 10),
+                    'not-longer': lambda items, result: len(result) <= len(items)},
+           raises_only=())
+M.loop(P + ':ok_heavy_items', 0,
+       invariant=lambda _i, out: len(out) <= _i and forall_range(0, len(out), lambda k: out[k].weight > 10),
+       modifies=dict(out=MListOf(_ITEM_REF), it='local'))
+
+
+# ---- names assigned in a loop that its specification does not declare (a temporary introduced by a later edit)
+def ok_undeclared_temporary(xs):
+    for x in xs:
+        positive = x > 0          # not declared in the loop specification: a loop-local temporary
+        if not positive:
+            return False
+    return True
+
+
+M.contract(P + ':ok_undeclared_temporary', params=dict(xs=ListOf(Int)), returns=Bool,
+           ensures={'all-positive': lambda xs, result: result == forall_range(0, len(xs), lambda j: xs[j] > 0)})
+M.loop(P + ':ok_undeclared_temporary', 0, invariant=lambda _i, xs: forall_range(0, _i, lambda j: xs[j] > 0),
+       modifies=dict(x='local'))
+
+
+def bad_undeclared_carried(xs):
+    seen_bad = False
+    for x in xs:
+        if seen_bad:              # reads what an earlier iteration stored; the specification says nothing about it
+            return False
+        seen_bad = x <= 0
+    return True
+
+
+M.contract(P + ':bad_undeclared_carried', params=dict(xs=ListOf(Int)), returns=Bool, cover=False, raises_only=(),
+           ensures={'never-false': lambda result: result is True})
+M.loop(P + ':bad_undeclared_carried', 0, invariant=lambda _i, xs: True, modifies=dict(x='local'))
+# the undeclared name is unbound at the loop head: the read fails on that path, nothing is proved about it
+EXPECTED_REFUTED.add(P + ':bad_undeclared_carried : raises_only()')
